@@ -307,7 +307,7 @@ def run_jobs(jobs, seed, log):
             }
             synthetic.append((pr, v))
             # carry on after the crashing episode so that one defect does not mask the others
-            if pr.job.restartable and ep is not None and "index" in ep and pr.restarts < 12:
+            if pr.job.restartable and ep is not None and "index" in ep and pr.restarts < 40:
                 sub = None
                 for l in detail:
                     if l.startswith("CASE "):
@@ -320,6 +320,8 @@ def run_jobs(jobs, seed, log):
                 else:
                     ex = dict(pr.extra, start=int(ep["index"]) + 1)
                     ex.pop("substart", None)
+                if pr.restarts + 1 >= 5:
+                    ex["noprobe"] = 1  # this shard keeps aborting: let it run to completion without further probing
                 nxt = Proc(pr.job, pr.shard, pr.seed, extra=ex, tag="-r%d" % (pr.restarts + 1))
                 nxt.restarts = pr.restarts + 1
                 pending.append(nxt)
